@@ -157,12 +157,21 @@ def exploded (cfg : Cfg) (ds : List Rec) : List (Rec × Nat) :=
   (zipMap (fun pre r _ => (r, rgOf cfg pre r)) ds).flatMap
     (fun p => (explodeRow p.1).map (fun x => (x, p.2)))
 
-/-- `groupby([idcol, '_RESETGROUP']).apply(sort_values(by='_TIMES', kind='stable'))` -/
+def timeLe (a b : Rec × Nat) : Bool := decide (a.1.time ≤ b.1.time)
+
+/-- the (id, reset group) groups of the exploded rows, in ascending key order -/
+def expandGroups (ex : List (Rec × Nat)) : List (List (Rec × Nat)) :=
+  let keys := (dedup (ex.map (fun p => (p.1.id, p.2)))).mergeSort keyLe
+  keys.map (fun k => ex.filter (fun p => (p.1.id, p.2) == k))
+
+/-- `groupby([idcol, '_RESETGROUP'], group_keys=False).apply(sort_values(by='_TIMES', kind='stable'))`.
+    pandas: if the sort changes the index of no group the result is put back in the original row
+    order; otherwise the sorted groups are concatenated in ascending key order. -/
 def expandRg (cfg : Cfg) (ds : List Rec) : List (Rec × Nat) :=
   let ex := exploded cfg ds
-  let keys := (dedup (ex.map (fun p => (p.1.id, p.2)))).mergeSort keyLe
-  keys.flatMap (fun k =>
-    (ex.filter (fun p => (p.1.id, p.2) == k)).mergeSort (fun a b => decide (a.1.time ≤ b.1.time)))
+  let groups := expandGroups ex
+  let mutated := groups.any (fun g => (g.mergeSort timeLe).map (·.1.lab) != g.map (·.1.lab))
+  if mutated then groups.flatMap (fun g => g.mergeSort timeLe) else ex
 
 def expand (cfg : Cfg) (ds : List Rec) : List Rec :=
   if cfg.hasAddl then (expandRg cfg ds).map (·.1) else ds
